@@ -51,3 +51,18 @@ CHECKS["C17"] = {
     "outside": ["file lengths other than the 12 listed", "seek targets/read sizes away from the listed windows", "readers returning (0, nil) forever or non-EOF errors (C18)", "histories longer than 3 operations"],
     "assumptions": ["reader obeys the io.Reader/io.Seeker contracts; short reads limited per run", "ReadUint16Slice counts <= 2"],
 }
+
+CHECKS["C03"] = {
+    "harnesses": [
+        H("header", "c03.go", "VerifH_C03_layout", ["validated", "read back"],
+          quick={"params": {"maxtables": 2}, "timeout": 280, "shards": 2},
+          thorough={"params": {"maxtables": 3}, "timeout": 2400, "shards": 3}),
+        H("header", "c03.go", "VerifH_C03_checksum", ["done"],
+          quick={"params": {"maxlen": 9}, "timeout": 120},
+          thorough={"params": {"maxlen": 17}, "timeout": 600}),
+    ],
+    "bounds": {"quick": "maps with 1..2 entries; tags from {head, glyf, OS/2} or fully symbolic printable 4-byte tags outside the priority table; body lengths {0,1,2,3,4,5,8} or nil, symbolic contents; head of 54, 12 or 0..11 bytes; all three scaler types; nondeterministic map iteration order; checksum for every data of length <= 9",
+               "thorough": "3 entries; checksum length <= 17"},
+    "outside": ["more than 3 tables", "tables longer than 54 bytes (uint32 offset arithmetic at large sizes)", "agreement with golang.org/x/image on whole fonts", "files written by the full font writer (covered per table by C11/C12/...)"],
+    "assumptions": ["at least one non-nil table (header.Read rejects table-less files)", "tags are 4 printable ASCII characters"],
+}
